@@ -24,7 +24,12 @@ def run_control(c, chk):
     try:
         dst = os.path.join(tmp, "repo")
         shutil.copytree(REPO, dst, ignore=shutil.ignore_patterns("target", ".git"))
-        edits = c.get("edits") or [{"file": c["file"], "old": c["old"], "new": c["new"]}]
+        if c.get("patch"):
+            # start from a recorded (benign) refactoring, then apply the one-site edits to it
+            pr = subprocess.run(["patch", "-p1", "-s", "-d", dst, "-i", os.path.join(HERE, c["patch"])], capture_output=True, text=True)
+            if pr.returncode != 0:
+                return {"name": c["name"], "status": "skipped", "why": "patch %s does not apply" % c["patch"]}
+        edits = c.get("edits") or ([{"file": c["file"], "old": c["old"], "new": c["new"]}] if "file" in c else [])
         for e in edits:
             p = os.path.join(dst, e["file"])
             s = open(p).read()
